@@ -29,10 +29,10 @@ META = {
                  "exact FIFO correspondence on 1 rank + per-key sequential-order search on multi-rank simulated runs",
     "text": "YgmVerif.MapOps.apply transcribes the nine remote lambdas of map_impl.hpp over an association list; YgmVerif.Dist proves for every "
             "keyed container and every execution sequence that the final value and callback log of a key are the fold over the subsequence of "
-            "operations on that key (proj_run, cbs_run, commute, execGlobal_rank, stored_only_on_owner). Props/C11 proves one theorem per "
+            "operations on that key (proj_run, cbs_run, commute, exactly_once_fold, execGlobal_rank, stored_only_on_owner). Props/C11 proves one theorem per "
             "clause: insert_overwrites, insert_if_missing_keeps, visit_creates_default_and_calls_once, visit_multi_once_per_value, group_once, "
             "visit_if_exists_never_creates, else_visit_offered_value, reduce_is_fold (+ reduce_perm for associative-commutative operators), "
-            "erase_removes_all, multimap_adds, map_invariant, queries_agree_*. The model is tied to the code by exact replay on one rank and by "
+            "erase_removes_all, multimap_adds, multimap_inserts_append, map_invariant, queries_agree_*. The model is tied to the code by exact replay on one rank and by "
             "a search for an explaining sequential order per contended key on multi-rank runs under simmpi.",
     "note": "Trusted: Lean kernel + propext/Classical.choice/Quot.sound; the hand-written model MapOps.lean, tied to map_impl.hpp on the "
             "explored histories only; exactly-once atomic execution on the owner (C01/C02/C08) is the assumption `Dist.Complete`, not proved "
